@@ -684,6 +684,9 @@ func (x *tr) binary(e *ast.BinaryExpr) val {
 	if v, ok := x.refNilTest(e); ok { // ext_chain.go
 		return v
 	}
+	if v, ok := x.errNilCmp(e); ok { // autoinline.go: err != nil on the result of an inlined helper
+		return v
+	}
 	if v, ok := x.hintVariant(e); ok { // canon.go: an evident variant of a hinted boolean (a != b, b == a, s == "" / len(s) == 0)
 		return v
 	}
@@ -961,12 +964,15 @@ func (x *tr) errVal(e ast.Expr) string {
 			"base.NewTokenResultBlocked", "base.NewTokenResultBlockedWithMessage", "base.NewTokenResultBlockedWithCause":
 			return "1%Z" // freshly constructed, never nil
 		}
-		if v, ok := x.inline(ce); ok {
+		if v, ok := x.inlineAny(ce); ok { // autoinline.go: Inline-listed, or as a last resort any same-package helper
 			if v.typ != "error" {
 				fail("inlined %s does not return an error", fn)
 			}
 			return v.coq
 		}
+	}
+	if v, ok := x.errVarVal(e); ok { // autoinline.go
+		return v
 	}
 	fail("error value %s is neither nil, a listed error variable, a freshly constructed error nor an inlined call", s)
 	return ""
@@ -1016,6 +1022,10 @@ func (x *tr) inline(ce *ast.CallExpr) (val, bool) {
 	pre := ""
 	bind := func(pname string, ptype ast.Expr, arg ast.Expr) {
 		pt := y.typeOfExpr(ptype)
+		if pt == "string" || src(x.p.fset, ptype) == "string" { // autoinline.go: message text handed to a helper: not part of the decision
+			y.vars[pname] = "string"
+			return
+		}
 		if _, isStruct := x.p.structs[pt]; isStruct {
 			pt = "struct:" + pt
 		}
@@ -1031,7 +1041,13 @@ func (x *tr) inline(ce *ast.CallExpr) (val, bool) {
 			y.alias[pname] = x.resolve(a.Name)
 			return
 		}
-		v := x.coerce(x.expr(arg), pt)
+		av := x.expr(arg)
+		if av.typ == "iface" { // autoinline.go: an abstract value id handed on to a helper
+			y.vars[pname] = "iface"
+			pre += "let " + cname(pname) + " := " + av.coq + " in "
+			return
+		}
+		v := x.coerce(av, pt)
 		y.vars[pname] = pt
 		pre += "let " + cname(pname) + " := " + v.coq + " in "
 	}
@@ -1518,9 +1534,9 @@ func translate(root *rootT, t target) (def string, info outFn) {
 	x.markFn = fd
 	var before []ast.Stmt
 	if t.LoopBody > 0 && t.LoopAny {
-		x.loop, before = findLoopAny(fd.Body, t.LoopBody) // ext_chain.go
+		x.loop, before = findLoopAny(fd.Body, x.canonLoopIndex(fd, t.LoopBody, true)) // ext_chain.go; loopcanon.go
 	} else if t.LoopBody > 0 {
-		x.loop = findLoop(fd.Body, t.LoopBody) // loopbody.go
+		x.loop = findLoop(fd.Body, x.canonLoopIndex(fd, t.LoopBody, false)) // loopbody.go; loopcanon.go
 	}
 	if fd.Type.Results == nil && len(t.Acts) == 0 && x.loop == nil {
 		fail("no results")
@@ -1609,6 +1625,7 @@ func main() {
 	repo := flag.String("repo", "/repo", "repository root")
 	out := flag.String("out", "Leaf_gen.v", "output .v file")
 	jout := flag.String("json-out", "", "output json description")
+	wlc := flag.String("write-loopcanon", "", "loopcanon.go: record the virtual loop numbers of the LoopBody targets on this (pinned) tree and exit")
 	flag.Parse()
 	var b strings.Builder
 	b.WriteString("(* GENERATED by translator/leaf from " + *repo + " - do not edit *)\n")
@@ -1618,6 +1635,13 @@ func main() {
 	b.WriteString(shapingPreamble)
 	b.WriteString(hotspotPreamble)
 	root := &rootT{dir: *repo, pkgs: map[string]*pkgInfo{}}
+	if *wlc != "" {
+		if err := writeLoopCanon(root, *wlc); err != nil {
+			fmt.Fprintln(os.Stderr, err)
+			os.Exit(2)
+		}
+		return
+	}
 	var infos []outFn
 	for _, t := range targets {
 		def, info := translate(root, t)
